@@ -35,6 +35,8 @@ func (c *Calcium) doReallocOnNode(ctx context.Context, node *types.Node, workloa
 	var deltaResources resourcetypes.Resources
 	var engineParams resourcetypes.Resources
 	var err error
+	// whether the node resource has been changed by the realloc step
+	var reallocated bool
 
 	logger := log.WithFunc("calcium.doReallocOnNode").WithField("opts", opts)
 	err = utils.Txn(
@@ -47,6 +49,7 @@ func (c *Calcium) doReallocOnNode(ctx context.Context, node *types.Node, workloa
 			if err != nil {
 				return err
 			}
+			reallocated = true
 			logger.Debugf(ctx, "realloc workload %+v, resource args %+v, engine args %+v", workload.ID, litter.Sdump(resources), litter.Sdump(engineParams))
 			workload.EngineParams = engineParams
 			workload.Resources = resources
@@ -58,7 +61,8 @@ func (c *Calcium) doReallocOnNode(ctx context.Context, node *types.Node, workloa
 		},
 		// rollback: revert the resource changes and rollback workload meta
 		func(ctx context.Context, failureByCond bool) error {
-			if failureByCond {
+			// the first step can still fail (updating workload meta) after the node resource was changed
+			if failureByCond && !reallocated {
 				return nil
 			}
 			if err := c.rmgr.RollbackRealloc(ctx, workload.Nodename, deltaResources); err != nil {
